@@ -290,18 +290,25 @@ def t_tname(F, R):
     consts = set()
     bad = []
     nev = 0
-    todo = {0, 1, S.TOPIC_MAX_BYTES - 1, S.TOPIC_MAX_BYTES, S.TOPIC_MAX_BYTES + 1}
+    todo = {0, 1, 40, S.TOPIC_MAX_BYTES - 1, S.TOPIC_MAX_BYTES, S.TOPIC_MAX_BYTES + 1}
     done = set()
     shapes = []
     for c in _tname_chars():
         shapes += [[c], [ord("a"), c], [c, ord("a")]]
+    # longer names: the character at every position of two full 8-byte words (and one byte beyond) among harmless fillers that
+    # are above, below and between the forbidden characters and that are multi-byte -- for scans that work a word at a time or
+    # stop at the first "suspicious" byte
+    for filler in (ord("a"), ord("$"), ord(" "), ord("/"), 0xE9):
+        for c in (0, ord("+"), ord("#"), ord("a"), ord("$"), ord(","), ord("!"), 0x80, 0x2B00):
+            for pos in range(17):
+                shapes.append([filler] * pos + [c] + [filler] * (16 - pos))
     while todo:
         w = todo.pop()
         if w in done or w < 0:
             continue
         done.add(w)
         # the length breakpoints are explored with a harmless name; the character scan with a short length
-        for cs in ([[ord("a")]] + (shapes if w == 1 else [])):
+        for cs in ([[ord("a")]] + (shapes if w == 40 else [])):
             state.update({"len": w, "log": [], "chars": cs})
             pe = PE(F, call_hook=hook)
             pe_box[0] = pe
